@@ -19,7 +19,7 @@ theorem build_eq_struct (e c : Char) (he : e ∈ specEndians) (hc : c ∈ specCo
     ∃ name len d s, (replacements e).lookup c = some (name, len) ∧ mkDtype name len = .ok d ∧
       structSpec e c = some s ∧ len = 8 * s.size ∧
       (build d v).toOption = ((Struct.pack1 s v).map bitsOfBytes).toOption := by
-  sorry
+  exact build_eq_struct' e c he hc v
 
 /-- "pack(code, *values).bytes equals struct.pack(code, *values)": for every prefix, every expanded code list of
     any length and every value list, the code's `structparser` + `pack` loop succeeds exactly when `struct.pack`
@@ -28,13 +28,13 @@ theorem pack_struct_eq (e : Char) (he : e ∈ specEndians) (codes : List Char) (
     (vals : List Val) :
     ((structparser e codes).bind (packTokens · vals)).toOption
       = ((Struct.pack e codes vals).map bitsOfBytes).toOption := by
-  sorry
+  exact pack_struct_eq' e he codes hc vals
 
 /-- The same through the format string: count expansion (`2h` = `hh`) then the above. -/
 theorem pack_fmt_eq (fmt : String) (e : Char) (codes : List Char) (vals : List Val)
     (hm : matchStructFmt fmt = some (e, codes)) :
     pack fmt vals = (structparser e codes).bind (packTokens · vals) := by
-  sorry
+  exact pack_fmt_eq' fmt e codes vals hm
 
 /-- Count expansion: a run of decimal digits before a code repeats the code that many times. -/
 theorem expandCodes_count (ds : List Char) (hds : ∀ d ∈ ds, d.isDigit = true) (hne : ds ≠ []) (c : Char)
@@ -42,24 +42,24 @@ theorem expandCodes_count (ds : List Char) (hds : ∀ d ∈ ds, d.isDigit = true
     expandCodes (ds ++ c :: cs) none =
       (expandCodes cs none).map
         (List.replicate (ds.foldl (fun acc d => acc * 10 + (d.toNat - '0'.toNat)) 0) c ++ ·) := by
-  sorry
+  exact expandCodes_count' ds hds hne c hc hnd cs
 
 theorem expandCodes_single (c : Char) (hc : isCode c = true) (hnd : c.isDigit = false) (cs : List Char) :
     expandCodes (c :: cs) none = (expandCodes cs none).map (c :: ·) := by
-  sorry
+  exact expandCodes_single' c hc hnd cs
 
 /-- A packed struct format is always a whole number of bytes: the standard `struct.calcsize`. -/
 theorem pack_length (e : Char) (he : e ∈ specEndians) (codes : List Char) (hc : ∀ c ∈ codes, c ∈ specCodes)
     (vals : List Val) (bits : Bits) (h : (structparser e codes).bind (packTokens · vals) = .ok bits) :
     bits.length = 8 * standardCalcsize codes := by
-  sorry
+  exact pack_length' e he codes hc vals bits h
 
 /-- `Bits.unpack` on whole-byte contents reads what `struct.unpack_from` reads (and fails exactly when the buffer
     is too short). -/
 theorem unpack_struct_eq (e : Char) (he : e ∈ specEndians) (codes : List Char) (hc : ∀ c ∈ codes, c ∈ specCodes)
     (b : Bits) (h8 : b.length % 8 = 0) :
     ((structparser e codes).bind (readTokens · b 0)).toOption = (Struct.unpack e codes (toBytes b)).toOption := by
-  sorry
+  exact unpack_struct_eq' e he codes hc b h8
 
 /-- "and unpack inverts it": whatever `pack` produced (followed by any further bits) unpacks to the packed values
     (NaN-free, as the property's quantifier says). -/
@@ -67,13 +67,13 @@ theorem unpack_inverts (e : Char) (he : e ∈ specEndians) (codes : List Char) (
     (vals : List Val) (hfin : valsFinite codes vals = true) (bits rest : Bits)
     (h : (structparser e codes).bind (packTokens · vals) = .ok bits) :
     (structparser e codes).bind (readTokens · (bits ++ rest) 0) = .ok vals := by
-  sorry
+  exact unpack_inverts' e he codes hc vals hfin bits rest h
 
 /-- SPEC sanity: `struct.unpack(struct.pack(…)) = values`. -/
 theorem struct_unpack_pack (e : Char) (codes : List Char) (vals : List Val) (hfin : valsFinite codes vals = true)
     (d rest : List Nat) (h : Struct.pack e codes vals = .ok d) :
     Struct.unpack e codes (d ++ rest) = .ok vals := by
-  sorry
+  exact struct_unpack_pack' e codes vals hfin d rest h
 
 /-! ### non-vacuity -/
 
